@@ -1212,6 +1212,8 @@ bool ScriptVM::Process(ScriptContext& context, uinttime_t interruptTime)
 
         case OP_STORE_FIELD_REF:
         {
+            bool operandsRead = false;
+
             try
             {
                 Listener* listener = m_Stack.GetTop().listenerValue();
@@ -1220,10 +1222,12 @@ bool ScriptVM::Process(ScriptContext& context, uinttime_t interruptTime)
                 {
                     const op_name_t fieldName = ReadGetOpcodeValue<op_name_t>();
                     skipField();
+                    operandsRead = true;
                     throw ScriptVMErrors::NullListenerField(fieldName);
                 }
                 else
                 {
+                    operandsRead = true;
                     ScriptVariable* const listenerVar = storeTop<true>(eventSystem, listener);
 
                     if (listenerVar)
@@ -1235,6 +1239,11 @@ bool ScriptVM::Process(ScriptContext& context, uinttime_t interruptTime)
             }
             catch (...)
             {
+                if (!operandsRead) {
+                    // the receiver could not be cast to a listener: step over the operands
+                    skipField();
+                }
+
                 ScriptVariable* const pTop = m_Stack.GetTopPtr();
                 pTop->setRefValue(pTop);
                 throw;
